@@ -39,32 +39,36 @@ Qed.
 Section DagCborLinks.
   Variable hasher_ok : N -> bool.
   Variable hash : N -> bytes -> bytes.
-  Variable codecs : N -> option codec.
+  Variable encoders : N -> option codec.
+  Variable decoders : N -> option codec.
   Variable rt : bool.
 
-  (* the registry resolves the dag-cbor code to the dag-cbor codec (as default_registry does) *)
-  Hypothesis Hreg : codecs 113 = Some (dagcbor_codec rt).
+  (* the registry resolves the dag-cbor code to the dag-cbor codec in both directions (as
+     default_registry does) *)
+  Hypothesis Hreg : encoders 113 = Some (dagcbor_codec rt).
+  Hypothesis Hregd : decoders 113 = Some (dagcbor_codec rt).
 
   Theorem dagcbor_link_fn_perm lp v1 v2 :
     lp_codec lp = 113 -> keys_nodup v1 -> keys_nodup v2 -> perm_eq v1 v2 ->
-    compute hasher_ok hash codecs lp v1 = compute hasher_ok hash codecs lp v2.
+    compute hasher_ok hash encoders lp v1 = compute hasher_ok hash encoders lp v2.
   Proof.
-    intros C D1 D2 P. eapply (link_fn_perm hasher_ok hash codecs perm_eq); eauto.
+    intros C D1 D2 P. eapply (link_fn_perm hasher_ok hash encoders perm_eq); eauto.
     - rewrite C. exact Hreg.
     - apply dagcbor_order_insensitive.
   Qed.
 
   Theorem dagcbor_store_load sk tr h1 h2 lp v l b f :
     lp_version lp = 1 -> lp_codec lp = 113 -> dagcbor_dom v ->
-    store_plan hasher_ok hash codecs lp v = Some (l, b) ->
-    no_collision hasher_ok hash codecs sk (skey sk l) b (h1 ++ OStore lp v :: h2) ->
-    let st := snd (run hasher_ok hash codecs sk tr [] (h1 ++ OStore lp v :: h2)) in
-    load_any hasher_ok hash codecs f tr (honest_read sk st l) l = loaded f (sort_maps rfc_ltb v) b /\
+    store_plan hasher_ok hash encoders lp v = Some (l, b) ->
+    no_collision hasher_ok hash encoders sk (skey sk l) b (h1 ++ OStore lp v :: h2) ->
+    let st := snd (run hasher_ok hash encoders decoders true sk tr [] (h1 ++ OStore lp v :: h2)) in
+    load_any hasher_ok hash decoders f tr (honest_read sk st l) l = loaded f (sort_maps rfc_ltb v) b /\
     verify hash l b = VOk.
   Proof.
     intros V C D P NC.
-    eapply (store_load_roundtrip hasher_ok hash codecs); eauto.
+    eapply (store_load_roundtrip hasher_ok hash encoders decoders); eauto.
     - rewrite C. exact Hreg.
+    - rewrite C. exact Hregd.
     - apply dagcbor_roundtrips.
   Qed.
 End DagCborLinks.
